@@ -102,7 +102,8 @@ func (pc *parentController) syncRollingUpdate(parentRevisions []*parentRevision,
 		}
 		apiGroup, _ := common.ParseAPIVersion(child.GetAPIVersion())
 		kind := child.GetKind()
-		name := child.GetName()
+		// Claims are recorded under the child's name relative to the parent.
+		name := commonv1.RelativeName(latest.parent, child)
 
 		// Skip if rolling update isn't enabled for this child type.
 		if !pc.updateStrategy.isRolling(apiGroup, kind) {
